@@ -6,7 +6,7 @@ TF_UNITS = {"S": 1, "T": 60, "H": 3600, "D": 86400}
 TF_MULTS = [1, 2, 3, 5, 7, 10, 15, 30, 45]
 
 PRICE_STYLES = ["walk", "walk", "walk", "ints", "flat", "rising", "falling", "zerovol", "repeat", "big", "small", "jumpy"]
-TS_STYLES = ["regular", "regular", "dups", "gaps", "biggaps", "mixed", "mixed"]
+TS_STYLES = ["regular", "regular", "dups", "gaps", "biggaps", "mixed", "mixed", "phase"]
 
 
 def rng_for(seed, *path):
@@ -105,6 +105,8 @@ def gen_timestamps(rng, n, style=None, step=None, base=None):
             t += step * (rng.randint(2, 6) if r < 0.15 else 1)
         elif style == "biggaps":
             t += step * (rng.randint(5, 200) if r < 0.1 else 1)
+        elif style == "phase":  # dense first, then sparse: a lifespan window shrinks in candle count
+            t += step if i < n // 2 else step * 8
         else:
             if r < 0.1:
                 t += 0
